@@ -283,7 +283,7 @@ def install_walker_env(ctx, eng, nsources=1):
     def s_canon(eng, st, callee, args, dty):
         p = pexpr(eng, st, args[0])
         return [Outcome(ok(P(("canon", p))), events=[Event("canonicalize", [p], "ok")]),
-                Outcome(err("std::io::Error"), events=[Event("canonicalize", [p], "err")])]
+                *([] if st.ghost.get("nsources", 1) > 1 else [Outcome(err("std::io::Error"), events=[Event("canonicalize", [p], "err")])])]
     S(r"^(std::fs::)?canonicalize::<", s_canon)
 
     def s_lstat(eng, st, callee, args, dty):
@@ -294,7 +294,7 @@ def install_walker_env(ctx, eng, nsources=1):
         # lstat: ENOENT exactly when there is no such entry; any other failure may strike regardless
         return [Outcome(ok(m), [wfact("lexists", p)], events=[Event("symlink_metadata", [p], "ok")]),
                 Outcome(ioerr("NotFound"), [z3.Not(wfact("lexists", p))], events=[Event("symlink_metadata", [p], "absent")]),
-                Outcome(ioerr("Other"), events=[Event("symlink_metadata", [p], "err")])]
+                *([] if st.ghost.get("nsources", 1) > 1 else [Outcome(ioerr("Other"), events=[Event("symlink_metadata", [p], "err")])])]
     def s_meta_is(nm):
         def h(e, st, c, a, d):
             m = deref_ref(e, st, a[0])
@@ -332,13 +332,13 @@ def install_walker_env(ctx, eng, nsources=1):
     def s_readlink(eng, st, callee, args, dty):
         p = pexpr(eng, st, args[0])
         return [Outcome(ok(P(("linktext", p))), events=[Event("read_link", [p], "ok")]),
-                Outcome(err("std::io::Error"), events=[Event("read_link", [p], "err")])]
+                *([] if st.ghost.get("nsources", 1) > 1 else [Outcome(err("std::io::Error"), events=[Event("read_link", [p], "err")])])]
     S(r"^(std::fs::)?read_link::<", s_readlink)
 
     def s_mkdir(eng, st, callee, args, dty):
         p = pexpr(eng, st, args[0])
         return [Outcome(ok(), events=[Event("create_dir_all", [p], "ok")]),
-                Outcome(err("std::io::Error"), events=[Event("create_dir_all", [p], "err")])]
+                *([] if st.ghost.get("nsources", 1) > 1 else [Outcome(err("std::io::Error"), events=[Event("create_dir_all", [p], "err")])])]
     front(r"^(std::fs::)?create_dir_all::<", s_mkdir)
 
     def wfact(name, p):
@@ -384,7 +384,7 @@ def install_walker_env(ctx, eng, nsources=1):
         p = pexpr(eng, st, args[0])
         tie(st, p)
         return [Outcome(ok(BoolV(wfact("exists", p))), events=[Event("Path::try_exists", [p], BoolV(wfact("exists", p)))]),
-                Outcome(err("std::io::Error"), events=[Event("Path::try_exists", [p], "err")])]
+                *([] if st.ghost.get("nsources", 1) > 1 else [Outcome(err("std::io::Error"), events=[Event("Path::try_exists", [p], "err")])])]
     front(r"^(std::path::)?Path::try_exists$", s_try_exists)
 
     def s_stat(eng, st, callee, args, dty):
@@ -394,7 +394,7 @@ def install_walker_env(ctx, eng, nsources=1):
         ioerr = lambda kind: AggV("Result", 1, [OpaqueV("std::io::Error", "stat_error_%s_%d" % (kind, next(eng.fresh_ids)), {"kind": kind})], "Err")
         return [Outcome(ok(m), [wfact("exists", p)], events=[Event("Path::metadata", [p], "ok")]),
                 Outcome(ioerr("NotFound"), [z3.Not(wfact("exists", p))], events=[Event("Path::metadata", [p], "absent")]),
-                Outcome(ioerr("Other"), events=[Event("Path::metadata", [p], "err")])]
+                *([] if st.ghost.get("nsources", 1) > 1 else [Outcome(ioerr("Other"), events=[Event("Path::metadata", [p], "err")])])]
     front(r"^(std::path::)?Path::metadata$", s_stat)
     front(r"^(std::path::)?Path::is_symlink$", s_exists("is_symlink"))
 
